@@ -16,6 +16,10 @@ delay is keyed (simkit.chaosnet.KeyedLatency).  Scenario classes (DESIGN.md §5 
                  instant (anywhere: t=0, before first contact, much later) -> completeness
   flap           one member down for a long window, then restarted (its
                  protocol is started again)                               -> DEAD never reverts
+  gossip         healthy network; a harness peer (GossipPeer, a registered member that speaks
+                 the wire protocol) piggy-backs generated (member, state, incarnation 0..3)
+                 triples - stale, reordered, duplicated, about the receiver, about itself -
+                 on its pings and acks                                      -> DEAD never reverts
   phi            PhiAccrualDetector alone on a generated heartbeat history -> monotone phi
 
 (Until fix dfba083 the failure class was split into `failure` / `failure-early` to
@@ -50,7 +54,7 @@ SELFTEST_RUNS = 8
 RULE = (
     "each case is a generated cluster of 3-9 real MembershipProtocol nodes (probe interval, suspicion timeout, "
     "indirect count, phi threshold, per-link keyed delays <= 5% of the probe interval, start instants a fraction of a round to a few rounds apart, all "
-    "generated) in one of the classes healthy / healthy-moderate (delays <= 30%) / failure / flap, or a generated heartbeat history "
+    "generated) in one of the classes healthy / healthy-moderate (delays <= 30%) / failure / flap / gossip (a harness peer piggy-backs generated updates), or a generated heartbeat history "
     "for a lone PhiAccrualDetector (class phi); non-trivial = every live node completed >= 2 full probe cycles "
     "(cluster classes; for failure classes additionally the crash fired and the detection deadline lay inside the "
     "horizon) or >= 3 heartbeats and >= 20 grid points (phi); distinct = distinct delivery digests (cluster) / "
@@ -62,7 +66,7 @@ REAL = ["happysimulator.components.consensus.membership.MembershipProtocol",
         "happysimulator.components.consensus.phi_accrual_detector.PhiAccrualDetector",
         "happysimulator.components.network.network.Network", "happysimulator.components.network.link.NetworkLink",
         "happysimulator.core.simulation.Simulation (instrumented loop)"]
-STUBS = ["simkit.chaosnet.KeyedLatency (LatencyDistribution seam)", "simkit.chaosnet.FaultDriver (crash window via the _crashed flag)",
+STUBS = ["GossipPeer (harness member speaking the wire protocol with generated piggy-backed updates)", "simkit.chaosnet.KeyedLatency (LatencyDistribution seam)", "simkit.chaosnet.FaultDriver (crash window via the _crashed flag)",
          "NetRef (late-bound handle so nodes can be constructed before the mesh)"]
 ASSUMPTIONS = [
     "'live member' = a node that is not inside a crash window; accuracy (never DEAD) is judged for live members in the "
@@ -76,7 +80,13 @@ ASSUMPTIONS = [
     "only: last contact + I + k(threshold) * max(I/2, min_std) + 3 probe intervals, where I = (2N-3) probe intervals + "
     "2 max delays bounds the gap between two contacts and k is the normal quantile of 10^-threshold (any phi-accrual "
     "detector over contact gaps <= I suspects by then); a node that is still ALIVE after that is reported",
-    "DEAD->ALIVE is judged against MemberInfo.incarnation (the recorded incarnation of that member at the observer)",
+    "DEAD->ALIVE is judged twice: against MemberInfo.incarnation (the recorded incarnation of that member at the observer) "
+    "and against a harness-side reference that does not trust it: the incarnation at which the observer reported the "
+    "member DEAD is that of the 'dead' update the specified rules would have applied from the delivered list (or what "
+    "it knew before, for its own timer's verdict), and a later non-DEAD report needs an update or a direct contact "
+    "about that member with a strictly higher incarnation delivered to the observer since",
+    "gossip class: the harness peer sends only well-formed protocol messages; accuracy (no live member DEAD) is not "
+    "judged there because the peer deliberately gossips false verdicts",
     "phi monotonicity is judged with a relative tolerance of 1e-9 (libm erfc/log10 are not guaranteed monotone to the ulp)",
     "a restarted member (flap class) starts its protocol again with start(), as a restarted process would",
 ]
